@@ -270,8 +270,14 @@ int fault_next(int call)
 {
     op_t *o = R.cur_op;
     if (!o || call >= FC_NMAX) return -1;
+    if (o->fpos[call] > 0 && o->fpos[call] <= o->nf) {
+        /* an EINTR or EAGAIN with a parameter N > 1 is a burst: the same answer N times in a row (a signal storm, a receiver that
+           stays away for a while) */
+        int last = o->f[o->fpos[call] - 1];
+        if (F_CALL(last) == call && (F_OUT(last) == FO_EINTR || F_OUT(last) == FO_EAGAIN) && F_PARAM(last) > 1 && o->frep[call] + 1 < F_PARAM(last)) { o->frep[call]++; return last; }
+    }
     for (int i = o->fpos[call]; i < o->nf; i++) {
-        if (F_CALL(o->f[i]) == call) { o->fpos[call] = i + 1; return o->f[i]; }
+        if (F_CALL(o->f[i]) == call) { o->fpos[call] = i + 1; o->frep[call] = 0; return o->f[i]; }
     }
     o->fpos[call] = o->nf;
     return -1;
@@ -447,7 +453,7 @@ const engine_t *engine_for(const char *prop)
 
 static void run_plan(const engine_t *e, plan_t *p)
 {
-    for (int i = 0; i < p->nops; i++) memset(p->ops[i].fpos, 0, sizeof(p->ops[i].fpos));
+    for (int i = 0; i < p->nops; i++) { memset(p->ops[i].fpos, 0, sizeof(p->ops[i].fpos)); memset(p->ops[i].frep, 0, sizeof(p->ops[i].frep)); }
     R.plan = p;
     R.cur_op = NULL;
     R.cur_op_index = -1;
